@@ -246,24 +246,26 @@ pub fn worker(family: &str, start: u64, end: u64, step: u64, arg: &str) {
     crate::iso::emit("DONE");
 }
 
-pub fn run(ctx: &Ctx) -> Report {
-    let mut rep = Report::new("model_checking");
+/// Runs the given phases in worker processes (`prop` names the property whose worker entry is used).
+pub fn run_phases(ctx: &Ctx, prop: &str, which: &[usize]) -> (Stats, bool, Vec<Value>) {
     let thorough = ctx.tier.is_thorough();
     let mut total = Stats::default();
     let mut complete = true;
     let mut phase_info = vec![];
-    let mut nontrivial = 0u64;
     for (pi, (flush, workers, depth)) in phases(thorough).into_iter().enumerate() {
+        if !which.contains(&pi) {
+            continue;
+        }
         let (pre, hists, work) = work_list(pi, thorough);
         if ctx.out_of_time() {
             complete = false;
-            phase_info.push(json!({"flush_after":flush,"workers":workers,"depth":depth,"histories":work.len(),"completed":0}));
+            phase_info.push(json!({"flush_after":flush,"workers":workers,"depth":depth,"eager_merges":pi >= 4,"histories":work.len(),"completed":0}));
             continue;
         }
         let cfg = cfg_of(pi, workers);
-        let o = crate::iso::run_isolated(ctx, "C02", &format!("p{pi}"), work.len() as u64, ctx.tier.name());
+        let o = crate::iso::run_isolated(ctx, prop, &format!("p{pi}"), work.len() as u64, ctx.tier.name());
         complete &= o.complete;
-        phase_info.push(json!({"flush_after":flush,"workers":workers,"depth":depth,"histories":work.len(),"completed":o.completed}));
+        phase_info.push(json!({"flush_after":flush,"workers":workers,"depth":depth,"eager_merges":pi >= 4,"histories":work.len(),"completed":o.completed}));
         total.errors.extend(o.machinery_errors);
         for (kind, idx) in o.crashes {
             let (p, h) = work[idx as usize];
@@ -279,7 +281,7 @@ pub fn run(ctx: &Ctx) -> Report {
                 let (p, h) = work[v["idx"].as_u64().unwrap_or(0) as usize];
                 total.violation(Violation::new(
                     v["rule"].as_str().unwrap_or("?"),
-                    format!("workers {workers} flush_after {flush:?} prefix {:?} history {:?}: {}", pre[p], hists[h], v["what"].as_str().unwrap_or("")),
+                    format!("workers {workers} flush_after {flush:?} eager_merges {} prefix {:?} history {:?}: {}", pi >= 4, pre[p], hists[h], v["what"].as_str().unwrap_or("")),
                     json!({"prefix":pre[p],"history":hists[h],"config":cfg,"flush_after":flush}),
                 ));
             } else if v["t"] == "S" {
@@ -291,10 +293,16 @@ pub fn run(ctx: &Ctx) -> Report {
                 }
             }
         }
-        nontrivial = total.counters.get("nontrivial").copied().unwrap_or(0);
         let mid = work[work.len() / 2];
         total.sample(json!({"prefix":pre[mid.0],"history":hists[mid.1],"config":cfg,"flush_after":flush}));
     }
+    (total, complete, phase_info)
+}
+
+pub fn run(ctx: &Ctx) -> Report {
+    let mut rep = Report::new("model_checking");
+    let (mut total, complete, phase_info) = run_phases(ctx, "C02", &[0, 1, 2, 3, 4, 5]);
+    let nontrivial = total.counters.get("nontrivial").copied().unwrap_or(0);
     // designated large batch (memory-budget cut inside an operation batch)
     total.eval();
     match catch_unwind(AssertUnwindSafe(check_big_batch)) {
